@@ -10,14 +10,17 @@
 (***************************************************************************)
 EXTENDS Emit
 
-Ns == (IF Thorough THEN 1..5 ELSE 1..3) \cup {7, 17}
+Ns == (IF Thorough THEN 1..5 ELSE 1..3) \cup {4, 7, 8, 17}
 Cs == IF Thorough THEN 1..4 ELSE 1..3
 Descs0 == SetToSeq(({"mse", "bce"} \X Ns \X {0} \X BOOLEAN) \cup ({"ce"} \X Ns \X Cs \X BOOLEAN))
 Bad == << <<"mse", <<2>>, <<3>>>>, <<"bce", <<2>>, <<3>>>>, <<"ce", <<2, 2>>, <<2, 3>>>>, <<"ce", <<2, 2>>, <<3, 2>>>>,
           <<"mse", <<>>, <<>>>>, <<"bce", <<2, 1>>, <<2, 1>>>>, <<"ce", <<2>>, <<2>>>>, <<"mse", <<2>>, <<2, 1>>>>, <<"ce", <<2, 2, 1>>, <<2, 2, 1>>>> >>
 (* the same loss object used for batches of different sizes in turn *)
 Reuse == << <<"reuse", "mse", <<3>>, <<1>>>>, <<"reuse", "bce", <<2>>, <<4>>>>, <<"reuse", "ce", <<2, 3>>, <<3, 2>>>>, <<"reuse", "ce", <<1, 2>>, <<2, 2>>>> >>
-Descs == MyCases(Descs0 \o [i \in DOMAIN Bad |-> <<"bad", Bad[i]>>] \o Reuse)
+(* the SAME tensor object as prediction and as target; and two tensors used in both orders by one loss object *)
+Same == << <<"same", "mse", <<3>>>>, <<"same", "bce", <<4>>>>, <<"same", "ce", <<2, 3>>>>, <<"same", "bce", <<1>>>>, <<"same", "ce", <<3, 1>>>>,
+           <<"swap", "bce", <<3>>>>, <<"swap", "ce", <<2, 2>>>>, <<"swap", "mse", <<2>>>> >>
+Descs == MyCases(Descs0 \o [i \in DOMAIN Bad |-> <<"bad", Bad[i]>>] \o Reuse \o Same)
 
 Build(d) ==
   IF d[1] = "reuse"
@@ -29,11 +32,18 @@ Build(d) ==
        @@ (LET ins3 == <<In("p", d[3], TRUE), In("t", d[3], FALSE), In("q", d[4], FALSE), In("u", d[4], FALSE)>>
                code3 == <<Ins(d[2], [inst |-> 1, dim |-> 0], <<1, 2>>), Ins(d[2], [inst |-> 1, dim |-> 0], <<3, 4>>), Ins(d[2], [inst |-> 1, dim |-> 0], <<1, 2>>)>>
            IN [rejects |-> <<Rejected(ins3, code3, 2, Ins(d[2], [inst |-> 1, dim |-> 0], <<3, 2>>)), Rejected(ins3, code3, 3, Ins(d[2], [inst |-> 1, dim |-> 0], <<1, 4>>))>>])
+  ELSE IF d[1] = "same"
+  THEN MkCase("c12", d[2] \o "-same-object", <<In("p", d[3], FALSE)>>, <<"prob,unit,prob">>, <<Ins(d[2], NoPar, <<1, 1>>)>>, <<2>>, 0, TRUE)
+       @@ [props |-> <<"nonneg", "finite">>]
+  ELSE IF d[1] = "swap"
+  THEN MkCase("c12", d[2] \o "-swapped", <<In("p", d[3], FALSE), In("t", d[3], FALSE)>>, <<"prob,unit,prob", "prob,targ01,prob">>,
+              <<Ins(d[2], [inst |-> 1, dim |-> 0], <<1, 2>>), Ins(d[2], [inst |-> 1, dim |-> 0], <<2, 1>>), Ins(d[2], NoPar, <<1, 2>>)>>, <<3, 4, 5>>, 0, TRUE)
+       @@ [props |-> <<"nonneg", "finite">>]
   ELSE IF d[1] = "bad"
   THEN MkCase("c12", d[2][1], <<In("p", d[2][2], FALSE), In("t", d[2][3], FALSE)>>, <<"any", "any">>,
               <<Ins(d[2][1], NoPar, <<1, 2>>)>>, <<>>, 0, TRUE)
   ELSE LET dims == IF d[1] = "ce" THEN <<d[2], d[3]>> ELSE <<d[2]>>
-       IN MkCase("c12", d[1], <<In("p", dims, d[4]), In("t", dims, FALSE)>>, <<"prob,unit,prob", "prob,targ01,prob">>,
+       IN MkCase("c12", d[1], <<In("p", dims, d[4]), In("t", dims, FALSE)>>, <<"prob,unit,prob,unit", "prob,targ01,prob,tcancel">>,        \* tcancel: out-of-range and soft targets whose t(1-t) cancel exactly
                  <<Ins(d[1], NoPar, <<1, 2>>)>>, <<3>>, 0, TRUE) @@ [props |-> <<"nonneg", "finite">>]
 
 Cases == [i \in DOMAIN Descs |-> Build(Descs[i])]
